@@ -86,7 +86,7 @@ def run(ck):
     thorough = ck.tier == "thorough"
     scale = 25 if thorough else 1
 
-    items = [(evs, D.run_impl(evs, "const"), "const") for _name, evs in L.CORPUS]
+    items = [(evs, D.run_impl(evs, pk), pk) for _name, evs in L.CORPUS for pk in ("const", "const+cc")]
     L.evaluate(ck, "corpus: hand-written histories (Props examples, mixed table lost twice, close in every connection state)", items,
                WHICH, THEOREMS, L.nontrivial_c10, rnd)
 
@@ -107,7 +107,8 @@ def run(ck):
 
     L.sync_connect_part(ck, rnd, 400 * (10 if thorough else 1), THEOREMS)
     L.reentrant_part(ck, rnd, 400 * (10 if thorough else 1), THEOREMS)
-    L.reentrant_part(ck, rnd, 600 * (10 if thorough else 1), THEOREMS, native=True)
+    if L.NATIVE_READY:
+        L.reentrant_part(ck, rnd, 600 * (10 if thorough else 1), THEOREMS, native=True)
 
     # ---- finding F-C10-1 (repaired by 7c12cf4): the witness is replayed on every run as a regression probe
     observed, fev, fouts = L.probe_f_c10_1()
@@ -118,7 +119,8 @@ def run(ck):
     ck.finding("F-C10-1", observed, what, frp)
 
     L.exhaustive(ck, 7 if thorough else 6, "whole", WHICH, THEOREMS, rnd)
-    L.exhaustive(ck, 7 if thorough else 5, "hook", WHICH, THEOREMS, rnd)
+    if L.NATIVE_READY:
+        L.exhaustive(ck, 7 if thorough else 5, "hook", WHICH, THEOREMS, rnd)
     if thorough:
         L.exhaustive(ck, 7, "split", WHICH, THEOREMS, rnd)
         ck.coqchk(["AV.Props.C10"])
